@@ -2,10 +2,38 @@
 
 package resolver
 
-import "github.com/containerd/containerd/v2/pkg/reference"
+import (
+	"sync"
+
+	"github.com/containerd/containerd/v2/pkg/reference"
+	rhttp "github.com/hashicorp/go-retryablehttp"
+)
 
 // VerifMultiCredsFuncs exposes multiCredsFuncs (the combination of credential sources used by
 // RegistryHostsFromConfig) to the verification harness.
 func VerifMultiCredsFuncs(ref reference.Spec, credsFuncs ...Credential) func(string) (string, string, error) {
 	return multiCredsFuncs(ref, credsFuncs...)
+}
+
+var (
+	verifClientMu sync.Mutex
+	verifClientFn func(*rhttp.Client)
+)
+
+// VerifSetClientHook installs a callback that RegistryHostsFromConfig invokes on every HTTP client it creates
+// (one per registry host, shared by the host's Client and its docker authorizer), so that the verification
+// harness can route the authorizer's token requests to an in-memory server instead of the network.
+func VerifSetClientHook(f func(*rhttp.Client)) {
+	verifClientMu.Lock()
+	verifClientFn = f
+	verifClientMu.Unlock()
+}
+
+func verifClientHook(c *rhttp.Client) {
+	verifClientMu.Lock()
+	f := verifClientFn
+	verifClientMu.Unlock()
+	if f != nil {
+		f(c)
+	}
 }
